@@ -132,6 +132,7 @@ class Module:
     imports: dict[str, str] = field(default_factory=dict)  # local alias -> dotted target
     consts: dict[str, ast.expr] = field(default_factory=dict)  # names bound exactly once at top level
     multi_bound: set[str] = field(default_factory=set)
+    alpha: dict = field(default_factory=dict)  # function -> {current local name: reference name} restored at load time
 
     def lines(self):
         return self.src.splitlines()
@@ -205,11 +206,14 @@ class Repo:
                 except SyntaxError as e:
                     raise AnalysisError("engine", f"syntax-error file={rel}:{e.lineno} {e.msg}")
                 from .canon import canonicalise
+                from .alpha import restore
+                renamed = restore(tree, rel)  # renamed locals get their reference names back (alpha-conversion; see sa/alpha.py)
                 tree = canonicalise(tree)  # one canonical shape per behaviour (see sa/canon.py)
                 name = rel[:-3].replace(os.sep, ".")
                 if name.endswith(".__init__"):
                     name = name[: -len(".__init__")]
                 m = Module(rel, name, src, tree, hashlib.sha256(raw).hexdigest())
+                m.alpha = renamed
                 self._index(m)
                 self.modules[rel] = m
                 self.by_name[name] = m
